@@ -89,9 +89,14 @@ pub struct Scratch {
     pub dir: PathBuf,
 }
 
+static SCRATCH_SEQ: std::sync::atomic::AtomicU64 = std::sync::atomic::AtomicU64::new(0);
+
 impl Scratch {
+    /// A fresh directory; the name is unique per process (a counter), so that runs
+    /// with identical scenarios never share one. Names never reach a result.
     pub fn new(root: &Path, tag: &str) -> Scratch {
-        let dir = root.join(tag);
+        let k = SCRATCH_SEQ.fetch_add(1, std::sync::atomic::Ordering::Relaxed);
+        let dir = root.join(format!("{tag}-{k}"));
         let _ = std::fs::create_dir_all(&dir);
         Scratch { dir }
     }
